@@ -723,23 +723,24 @@ func (f *FunctionType) key() string {
 	if f.string != "" {
 		return f.string
 	}
-	var ret string
+	// Not a string concatenation per value: the number of params and results is only bounded by the input size.
+	var ret strings.Builder
 	for _, b := range f.Params {
-		ret += ValueTypeName(b)
+		ret.WriteString(ValueTypeName(b))
 	}
 	if len(f.Params) == 0 {
-		ret += "v_"
+		ret.WriteString("v_")
 	} else {
-		ret += "_"
+		ret.WriteString("_")
 	}
 	for _, b := range f.Results {
-		ret += ValueTypeName(b)
+		ret.WriteString(ValueTypeName(b))
 	}
 	if len(f.Results) == 0 {
-		ret += "v"
+		ret.WriteString("v")
 	}
-	f.string = ret
-	return ret
+	f.string = ret.String()
+	return f.string
 }
 
 // String implements fmt.Stringer.
